@@ -19,14 +19,14 @@ def _items(verdict):
 @matcher
 def c14_sparse_dense_path_row_permutation(fam, case, verdict):
     """Only: representation sptensor, dense-solver path (r >= shape[n] - 1), and the ONLY failing
-    clauses are the eigenvector / order / subspace ones (orthonormality, shape, dtype, sign rule,
-    Gram matrix and every other representation must be fine)."""
+    clauses are the eigenvector / order / subspace ones and their consequence, the captured energy
+    (orthonormality, shape, dtype, sign rule, Gram matrix and every other representation must be fine)."""
     if fam not in ("post_exact", "real_solver"):
         return False
     items = _items(verdict)
     if not items:
         return False
-    if any(rep != "sparse" or clause not in ("eigvec", "subspace") for rep, clause in items):
+    if any(rep != "sparse" or clause not in ("eigvec", "subspace", "energy") for rep, clause in items):
         return False
     if case is None:
         return True
